@@ -155,6 +155,16 @@ BREAK = [
     ("C05", "stale-node-list", "gaftools/cli/view.py", "        try:\n            node_list = node_dict[c]\n        except KeyError:\n", "        if c not in node_dict:\n"),
     ("C06", "bubble-by-block-size", "gaftools/cli/order_gfa.py", "        if len(bc_inside_nodes) == 0:", "        if len(bc) == 2:"),
     ("C14", "links-filtered-while-reading", "gaftools/gfa.py", '            elif line.startswith("L"):\n                edges.append(line)', '            elif line.startswith("L") and line.split("\\t")[1] in self and line.split("\\t")[3] in self:\n                edges.append(line)'),
+    # --- rules that came with the repairs F-C15d / F-C06a and with the shared mechanism bundles
+    ("C15", "bfs-marks-all", "gaftools/gfa.py", "        if reset_visited:\n            self.set_visited(False)", "        if reset_visited:\n            self.set_visited(reset_visited)"),
+    ("C15", "components-stale-marks", "gaftools/gfa.py", "        # the marks of an earlier traversal (e.g. bfs) must not hide nodes from this one\n        self.set_visited(False)\n", ""),
+    ("C06", "bubble-id-bare-index", "gaftools/cli/order_gfa.py", 'bubble_id = "bubble %d" % bubble_index', "bubble_id = str(bubble_index)"),
+    ("C18", "bubble-id-bare-index", "gaftools/cli/order_gfa.py", 'bubble_id = "bubble %d" % bubble_index', "bubble_id = str(bubble_index)"),
+    ("C03", "read-line-skips-offset-0", "gaftools/gaf.py", "        self.file.seek(offset)\n", "        if offset:\n            self.file.seek(offset)\n"),
+    ("C16", "read-line-bounded", "gaftools/gaf.py", "return self.parse_gaf_line(self.file.readline())", "return self.parse_gaf_line(self.file.readline(65536))"),
+    ("C20", "reader-skips-at-lines", "gaftools/gaf.py", "        for line in self.file:\n            yield self.parse_gaf_line(line)", "        for line in self.file:\n            if line[:1] in ('@', b'@'):\n                continue\n            yield self.parse_gaf_line(line)"),
+    ("C07", "sequence-upper", "gaftools/gfa.py", "            node.seq = seq\n", "            node.seq = seq.upper()\n"),
+    ("C04", "log-to-stdout", "gaftools/__main__.py", "handler = logging.StreamHandler()", "handler = logging.StreamHandler(sys.stdout)"),
 ]
 
 TWIN = [
@@ -169,7 +179,7 @@ TWIN = [
     ("C04", "set-union", "gaftools/cli/view.py", "                offsets.update(ind[ind_dict[nd]])", "                offsets |= set(ind[ind_dict[nd]])"),
     ("C05", "flip-region-test", "gaftools/cli/view.py", "if nd[2] <= q_e and q_s < nd[3]:", "if q_e >= nd[2] and nd[3] > q_s:"),
     ("C05", "extend-idiom", "gaftools/cli/view.py", "        for nd in node:\n            result.append(nd[0])", "        result.extend(nd[0] for nd in node)"),
-    ("C06", "enumerate-start-1", "gaftools/cli/order_gfa.py", "            for i, n in enumerate(sorted(bubbles[int(node)])):\n                node_order[n] = (bo, i + 1)", "            for i, n in enumerate(sorted(bubbles[int(node)]), 1):\n                node_order[n] = (bo, i)"),
+    ("C06", "enumerate-start-1", "gaftools/cli/order_gfa.py", "            for i, n in enumerate(sorted(bubbles[int(node.split(\" \")[1])])):\n                node_order[n] = (bo, i + 1)", "            for i, n in enumerate(sorted(bubbles[int(node.split(\" \")[1])]), 1):\n                node_order[n] = (bo, i)"),
     ("C08", "flip-comparator-operands", "gaftools/cli/sort.py", "    if al1.BO < al2.BO:\n        return -1\n    if al1.BO > al2.BO:\n        return 1", "    if al2.BO > al1.BO:\n        return -1\n    if al2.BO < al1.BO:\n        return 1"),
     ("C08", "elif-chain", "gaftools/cli/sort.py", "    if al1.start < al2.start:\n        return -1\n    if al1.start > al2.start:\n        return 1", "    if al1.start < al2.start:\n        return -1\n    elif al1.start > al2.start:\n        return 1"),
     ("C09", "fstring-tags", "gaftools/cli/sort.py", 'line += "\\tbo:i:%d\\tsn:Z:%s\\tiv:i:%d\\n" % (alignment.BO, alignment.sn, alignment.inv)', 'line += f"\\tbo:i:{alignment.BO}\\tsn:Z:{alignment.sn}\\tiv:i:{alignment.inv}\\n"'),
